@@ -412,7 +412,9 @@ func (w *world) doRender(op M) M {
 				res["bytes"] = text
 			}
 		case "html":
-			res["toks"] = lexHTML(text)
+			toks := lexHTML(text)
+			res["toks"] = toks
+			res["xmlok"] = xmlCrossCheck(text, toks)
 			if tg.wr != nil && tg.wr.gen != nil {
 				res["gencalls"] = orEmpty(tg.wr.gen.calls)
 			}
